@@ -65,11 +65,17 @@ Spec == Init /\ [][Next]_vars
 
 (* ---- reading what was generated ------------------------------------------------ *)
 NbZero == Cardinality({i \in 1..Len(ts) : ts[i] = "0"})
-WLines == SelectSeq(Lines(ts), LAMBDA l : ~IsComment(l) /\ l # <<>>)
+WLines == SelectSeq(Lines(LexSeq(ts)), LAMBDA l : ~IsComment(l) /\ l # <<>>)
 UsesTop == \E i \in 1..Len(ts) : ts[i] = "T"
 Strip(s) == SelectSeq(s, LAMBDA t : t \notin {"NL", "C"})
-NoComment(s) == LET ls == Lines(s)
-                    keep == SelectSeq(ls, LAMBDA l : ~IsComment(l))
+(* the lines of a string token sequence, as sequences of strings *)
+RECURSIVE SLinesFrom(_, _, _, _)
+SLinesFrom(s, i, cur, acc) ==
+  IF i > Len(s) THEN (IF cur = <<>> THEN acc ELSE Append(acc, cur))
+  ELSE IF s[i] = "NL" THEN SLinesFrom(s, i + 1, <<>>, Append(acc, cur))
+  ELSE SLinesFrom(s, i + 1, Append(cur, s[i]), acc)
+NoComment(s) == LET ls == SLinesFrom(s, 1, <<>>, <<>>)
+                    keep == SelectSeq(ls, LAMBDA l : l # <<"C">>)
                     RECURSIVE Join(_, _)
                     Join(x, i) == IF i > Len(x) THEN <<>> ELSE x[i] \o <<"NL">> \o Join(x, i + 1)
                 IN Join(keep, 1)
@@ -93,7 +99,7 @@ RoundTrip == Kind = "opb" =>
                /\ Len(OpbR.cons) = Len(StCons)
                /\ \A i \in 1..Len(StCons) : OpbR.cons[i] = ConLine(StCons[i])
                /\ OpbR.hasObj = (StObj # <<>>)
-               /\ OpbR.hasObj => OpbR.obj.lits = TermLits(StObj[1], 2, Len(StObj[1]))
+               /\ OpbR.hasObj => OpbR.obj.lits = TermLits(LexSeq(StObj[1]), 2, Len(StObj[1]))
 
 (* ---- emission ------------------------------------------------------------------- *)
 EmitFile == IF "VERIF_EMIT" \in DOMAIN IOEnv THEN IOEnv.VERIF_EMIT ELSE "formats_emit.ndjson"
